@@ -67,20 +67,27 @@ def run(chk, repo, tier):
         raise AnalysisError('Spectrum.wave has no setter')
     _, paths, _ = analyse(repo, setter)
     val = S(setter.params()[1][0]) if len(setter.params()) > 1 else S('value')      # whatever the setter calls its argument
+    step = nf.index(val, Slice(C(1), NONE)) - nf.index(val, Slice(NONE, C(-1)))
+    # each validation, in the equivalent ways it can be written (the condition under which the setter refuses)
     checks = {
-        'positive': nf.app('any', nf.app('le', val, C(0))),
-        'sorted': nf.app('not', nf.app('all', nf.app('eq', nf.app('sort', val), val))),
-        'unique': nf.app('any', nf.app('eq', nf.index(val, Slice(C(1), NONE)) - nf.index(val, Slice(NONE, C(-1))), C(0))),
+        'positive': [nf.app('any', nf.app('le', val, C(0))), nf.app('not', nf.app('all', nf.app('lt', C(0), val)))],
+        'sorted': [nf.app('not', nf.app('all', nf.app('eq', nf.app('sort', val), val))),
+                   nf.app('any', nf.app('ne', nf.app('sort', val), val))],
+        'unique': [nf.app('any', nf.app('eq', step, C(0))), nf.app('not', nf.app('all', nf.app('ne', step, C(0)))),
+                   nf.app('any', nf.app('eq', nf.app('diff', val), C(0)))],
     }
     store_paths = [p for p in paths if p.status != 'raise']
     from ..interp import canon_cond
-    for name, term0 in checks.items():
-        term, taken = canon_cond(term0, True)       # recorded conditions are canonical (`not x` taken = `x` not taken)
-        guarded = bool(store_paths) and all(any(c == term and pol is (not taken) for c, pol, _ in p.conds) for p in store_paths)
-        refused = any(p.status == 'raise' and p.exc == 'ValueError' and p.conds and p.conds[-1][0] == term
-                      and p.conds[-1][1] is taken for p in paths)
+    for name, forms in checks.items():
+        verdict = False
+        for term0 in forms:
+            term, taken = canon_cond(term0, True)       # recorded conditions are canonical (`not x` taken = `x` not taken)
+            guarded = bool(store_paths) and all(any(c == term and pol is (not taken) for c, pol, _ in p.conds) for p in store_paths)
+            refused = any(p.status == 'raise' and p.exc == 'ValueError' and p.conds and p.conds[-1][0] == term
+                          and p.conds[-1][1] is taken for p in paths)
+            verdict = verdict or (guarded and refused)
         chk.ob('C15-a', 'D-dominance', f'{SPEC}.wave#setter', f'`{name}` validation precedes the store and raises ValueError',
-               guarded and refused, f'expected test {fmt(term0)}', setter.loc())
+               verdict, f'expected test {fmt(forms[0])}', setter.loc())
     okst = all(any(e.kind == 'write' and e.data.get('attr') == '_wave' and e.data.get('value') == val for e in p.events)
                for p in store_paths)
     chk.ob('C15-a', 'D-dominance', f'{SPEC}.wave#setter', 'stores the validated array', okst and bool(store_paths), '', setter.loc())
@@ -412,6 +419,9 @@ def run(chk, repo, tier):
             want = nf.app('concatenate', Tup([Tup([lo_e], 'list'), mid, Tup([hi_e], 'list')], 'list'))
             oke = x == want
             det = f'edges = {fmt(x)[:220]}'
+            xa = x.single_atom() if isinstance(x, Poly) else None
+            if not oke and xa is not None and xa[0] == 'app' and str(xa[1]).startswith(('m:', 'call:', 'callv')):
+                oke, det = None, f'undecided: the edges come from a call that is not followed: {fmt(x)[:160]}'
         chk.ob('C15-f', 'N-formula', fb.key, f'trapezoid bin edges are the midpoints, ends={label}', oke, det, fb.loc())
     _, pb, _ = analyse(repo, fb, config={'interp_method': Const('trapz'), 'preserve_power': FALSE,
                                          'waveunit': nf.attr(SELF, 'waveunit')})
